@@ -5,11 +5,11 @@ import json, sys
 claimed = {
  "C09": dict(cat="fault_enumeration", ref="DESIGN.md section 4 (C09)",
    technique="deterministic simulation of the entropy seam: enumerated single-fault layer + seeded multi-fault signing histories, checked against RFC 6979 / sampler reference models and a no-reuse history oracle",
-   text="Every single fault at the entropy seam (error position 0..33 x kind x delivery, every partition, stuck payloads, every candidate-class sequence of length <= 3, retry streams, RFC 6979 generator grid) is enumerated on every run; multi-fault histories (stuck/replayed entropy across keys and digests, failing-then-healthy devices) are sampled from VERIF_SEED. Oracles: exact 32-byte consumption, abort on error, chunking unobservable, no r/nonce shared by events with different (key, e, entropy), nonce != entropy, sampler = first candidate in [1,n), RFC 6979 signatures and generator reads equal an independent model.",
+   text="Every single fault at the entropy seam (error position 0..33 x kind x delivery, every partition, stuck payloads, every candidate-class sequence of length <= 3, retry streams, RFC 6979 generator grid) is enumerated on every run; multi-fault histories (stuck/replayed entropy across keys and digests, failing-then-healthy devices) are sampled from VERIF_SEED. Oracles: exact 32-byte consumption, abort on error, chunking unobservable, no r/nonce shared by events with different (key, e, entropy) - also across long histories of up to 2048 signatures with stuck or shared entropy -, cumulative exact consumption on a shared device, nonce != entropy, sampler = first candidate in [1,n), RFC 6979 signatures and generator reads equal an independent model.",
    note="Trusted: Go's HMAC/SHA-256, math/big, the reference models (pinned to the bitcointalk RFC 6979 vectors, BIP-340 vectors and Wycheproof by a self-test). Statistical bias of the nonce is not decidable by sampling and is not claimed; only 'rejected, not reduced' is. Multi-fault histories are sampled, not enumerated."),
  "C08": dict(cat="exploration", ref="DESIGN.md section 4 (C08)",
    technique="deterministic simulation of the entropy seam; postconditions monitored as invariants on every successful signing event of every simulated history",
-   text="Entropy-source clause only: on every successful Sign/SignRaw of every simulated history (healthy and faulted devices, RFC 6979 mode, rand == nil) the signature has r in [1,n), low s, verifies under d*G in the reference model and in the library in every encoding with both malleability settings, carries the unique recovery id that recovers the signer, parses back to the same (r,s,v), and is unchanged by SelfVerify; inadmissible digest lengths / encodings must give an error.",
+   text="Entropy-source clause only: on every successful Sign/SignRaw of every simulated history (healthy and faulted devices, RFC 6979 mode, rand == nil) the signature has r in [1,n), low s, verifies under d*G in the reference model and in the library in every encoding with both malleability settings, carries the unique recovery id that recovers the signer, parses back to the same (r,s,v), and is unchanged by SelfVerify; inadmissible digest lengths / encodings must give an error. Long signing histories (256..2048 consecutive SignRaw calls under RFC 6979 / a stuck device / one shared device) reach the rare r/s shapes (leading zero bytes, short DER integers); each such event is re-signed through Sign in all three encodings, parsed back and verified.",
    note="Keys and digests are whatever the seeded workload draws (boundary-biased) - sampling, not enumeration over all d and digests. The x(R) >= n bit of the recovery id is unreachable for an honest signer (2^-128) and is not exercised."),
  "C14": dict(cat="exploration", ref="DESIGN.md section 4 (C14)",
    technique="deterministic simulation of the aux-randomness reader seam with fault injection; every signing event compared byte-for-byte with an independent BIP-340 model",
@@ -61,9 +61,9 @@ m = {
  "setup_cmd": "./setup.sh",
  "hooks": {
    "guard": "verif",
-   "enable": "go build -tags verif (two add-only files: /repo/export_verif.go, /repo/secec/export_verif.go); statement-level yield points for the concurrent world are NOT committed: they are generated from the current working tree at check time and injected with go build -overlay",
+   "enable": "go build -tags verif (three add-only files: /repo/export_verif.go, /repo/export_verif_lookup.go, /repo/secec/export_verif.go); statement-level yield points for the concurrent world are NOT committed: they are generated from the current working tree at check time and injected with go build -overlay",
    "baseline_off_cmd": "cd /repo && GOFLAGS=-mod=mod GOPROXY=off GOSUMDB=off GOTOOLCHAIN=local go test -vet=off -count=1 -timeout 25m ./...",
-   "source_commits": ["ceef1ab", "3e75f88"],
+   "source_commits": ["ceef1ab", "3e75f88", "d11be6f"],
    "add_only": True,
  },
  "engines": [{"name": "detsim", "path": "/verif/sim", "serves_properties": sorted(claimed), "kind_free_text": "deterministic simulation with fault injection: labelled multi-stream choice tape from VERIF_SEED, fault-injecting io.Reader devices, serialising scheduler with statement-level yield points (go/ast overlay) kept invisible to the race detector, math/big reference models, delta-debugging minimiser, fresh-process replay"}],
